@@ -14,7 +14,7 @@ import json
 import random
 
 from harness import cm
-from harness.core import Ctx, MachineryError, VERIF
+from harness.core import Ctx, MachineryError, REPO, VERIF
 
 WITNESS_FILE = VERIF / "findings" / "C01_witnesses.json.gz"
 
@@ -250,6 +250,179 @@ def random_models(rng, n, syms, depth, leaf_kinds):
     return out
 
 
+
+# ----------------------------------------------------------------------------- corpus traces (C)
+CORPUS = REPO / "tests" / "test_cases"
+
+
+def _mutations(root, rng, limit):
+    """Single structural edits of a parsed lxml tree (in place; the returned thunk undoes the edit)."""
+    parents = [e for e in root.iter() if isinstance(e.tag, str) and len([c for c in e if isinstance(c.tag, str)])]
+    ops = []
+    for e in parents:
+        kids = [c for c in e if isinstance(c.tag, str)]
+        for i in range(len(kids)):
+            ops.append(("del", e, i))
+            ops.append(("dup", e, i))
+            if i + 1 < len(kids):
+                ops.append(("swap", e, i))
+        if len(kids) > 2:
+            ops.append(("rot", e, 0))
+    rng.shuffle(ops)
+    return ops[:limit]
+
+
+def _apply(op):
+    import copy as _copy
+    kind, e, i = op
+    kids = [c for c in e if isinstance(c.tag, str)]
+    if kind == "del":
+        k = kids[i]
+        pos = e.index(k)
+        tail = k.tail
+        e.remove(k)
+
+        def undo():
+            k.tail = tail
+            e.insert(pos, k)
+    elif kind == "dup":
+        k = kids[i]
+        c = _copy.deepcopy(k)
+        e.insert(e.index(k) + 1, c)
+
+        def undo():
+            e.remove(c)
+    elif kind == "swap":
+        a, b = kids[i], kids[i + 1]
+        ia, ib = e.index(a), e.index(b)
+        e[ia], e[ib] = _copy.deepcopy(b), _copy.deepcopy(a)
+        na, nb = e[ia], e[ib]
+
+        def undo():
+            e[ia], e[ib] = a, b
+    else:
+        k = kids[-1]
+        pos = e.index(k)
+        e.remove(k)
+        e.insert(0, k)
+
+        def undo():
+            e.remove(k)
+            e.insert(pos, k)
+    return undo
+
+
+def corpus_worker(job):
+    """One corpus document: traces of the document itself and of `nmut` single-edit variants."""
+    import random
+    import warnings
+    import lxml.etree as LET
+    import xmlschema
+    from harness import cmproj
+    path, nmut, seed = job
+    stats, out = {}, []
+    warnings.simplefilter("ignore")
+    try:
+        loc = xmlschema.fetch_schema(path)
+    except Exception:
+        return [], {"no schema location": 1}
+    for cls in (xmlschema.XMLSchema10, xmlschema.XMLSchema11):
+        try:
+            schema = cls(loc)
+        except Exception:
+            stats["schema not built"] = stats.get("schema not built", 0) + 1
+            continue
+        try:
+            tree = LET.parse(path)
+        except Exception:
+            stats["not well-formed"] = stats.get("not well-formed", 0) + 1
+            continue
+        docs = [("as is", None)]
+        rng = random.Random(f"{seed}:{path}")
+        docs += [(op[0], op) for op in _mutations(tree.getroot(), rng, nmut)]
+        for label, op in docs:
+            undo = _apply(op) if op else None
+            try:
+                for t in cmproj.record(schema, xmlschema.XMLResource(tree), stats):
+                    t["ver"] = cls.XSD_VERSION
+                    t["doc"] = f"{path[len(str(CORPUS)) + 1:]} [{label}]"
+                    out.append(t)
+            except xmlschema.XMLSchemaException:
+                stats["library error"] = stats.get("library error", 0) + 1
+            finally:
+                if undo:
+                    undo()
+    return out, stats
+
+
+def validate_corpus(ctx: Ctx, ver, traces, tag):
+    """-> [(trace index, event index, reason)] for the rejected traces."""
+    import re
+    path = ctx.work / f"corpus_{tag}_{len(ctx.tlc_runs)}.json"
+    path.write_text(json.dumps([{"m": t["m"], "ev": t["ev"], "valid": t["valid"]} for t in traces]))
+    cfg = ("SPECIFICATION TSpec\nCONSTRAINT Mark\nPOSTCONDITION Post\nCHECK_DEADLOCK FALSE\n"
+           f'CONSTANTS\n Ver = "{ver}"\n MaxLen = 0\n Syms = {{}}\n ModelSet = {{}}\n')
+    r = ctx.tlc("Trace_ContentModel", cfg_text=cfg, workers=1, env={"TRACE_FILE": str(path)},
+                tag=f"trace-{tag}", count=True)
+    flat = re.sub(r"\s+", " ", r.out)
+    m = re.search(r'<< ?"rejected", \{([^}]*)\} ?>>', flat)
+    if not m:
+        raise MachineryError("trace validation produced no verdict")
+    rejected = [int(x) for x in m.group(1).replace(" ", "").split(",") if x]
+    reasons = {}
+    for t, l, why in re.findall(r'<< ?(\d+), (\d+), "([^"]+)" ?>>', flat):
+        reasons.setdefault(int(t), (int(l), why))
+    return [(t, *reasons.get(t, (0, "no behaviour of the specification explains the recorded children")))
+            for t in rejected]
+
+
+def corpus_phase(ctx: Ctx):
+    """Obligation C: the content models of the repository's own test schemas, the children of its test
+    documents and of single-edit variants of them, as the implementation attributed and judged them,
+    against the machine of ContentModel.tla."""
+    files = sorted(str(p) for p in CORPUS.rglob("*.xml"))
+    nmut = 60 if ctx.tier == "quick" else 400
+    results = ctx.pmap(corpus_worker, [(f, nmut, ctx.seed) for f in files], chunks=1)
+    stats, uniq = {}, {}
+    for trs, st in results:
+        for k, v in st.items():
+            stats[k] = stats.get(k, 0) + v
+        for t in trs:
+            uniq.setdefault((t["ver"], json.dumps([t["m"], t["ev"], t["valid"]])), t)
+    total = 0
+    for ver in ("1.0", "1.1"):
+        batch = [t for (v, _), t in sorted(uniq.items(), key=lambda kv: kv[0]) if v == ver]
+        if not batch:
+            raise MachineryError("no corpus trace recorded")
+        total += len(batch)
+        for t, l, why in validate_corpus(ctx, ver, batch, ver):
+            tr = batch[t - 1]
+            ctx.report({"kind": "corpus-trace", "ver": ver, "trace": tr, "event": l},
+                       f"{ver} corpus trace {tr['doc']} {tr['about']}: children "
+                       f"{[e['t'] for e in tr['ev']]} of model {json.dumps(tr['m'])}: {why} (event {l})")
+        # the binding is real: a trace with its verdict flipped / a child renamed must be rejected
+        probe = [dict(t) for t in batch[:40]]
+        for i, t in enumerate(probe):
+            if i % 2 == 0 or not t["ev"]:
+                t["valid"] = not t["valid"]
+            else:
+                t["ev"] = [dict(e) for e in t["ev"]]
+                t["ev"][0]["p"] = [9, 9]
+                t["valid"] = True
+        rej = {t for t, _, _ in validate_corpus(ctx, ver, probe, f"selftest-{ver}")}
+        want = set(range(1, len(probe) + 1))
+        if not want <= rej:
+            raise MachineryError(f"corrupted corpus traces accepted: {sorted(want - rej)[:5]}")
+    ctx.impl_traces += total
+    ctx.extra["corpus"] = {"documents": len(files), "mutations_per_document": nmut,
+                           "distinct_traces": total, "invalid_verdicts": sum(1 for t in uniq.values() if not t["valid"]),
+                           "recording": stats}
+    some = [t for t in uniq.values() if not t["valid"]][:2] + list(uniq.values())[:2]
+    for t in some:
+        ctx.sample({"scope": "corpus-trace", "doc": t["doc"], "about": t["about"], "model": t["m"],
+                    "children": [e["t"] for e in t["ev"]], "impl_valid": t["valid"]}, 16)
+
+
 def plans(tier):
     """(scope, TLC Ver, ModelSet, syms, MaxLen, schema classes judged)"""
     ab, abc, var = ["a", "b"], ["a", "b", "c"], ["a", "b", "m", "o"]
@@ -297,6 +470,8 @@ def run(ctx: Ctx, collect=None, only=None):
             ctx.sample({"scope": scope, "model": cm.model_str(m),
                         "words": ["".join(r["w"]) for r in recs[:6]],
                         "spec_valid": [r["acc"] for r in recs[:6]], "class": info}, 12)
+    if not only or "corpus" in only:
+        corpus_phase(ctx)
     ctx.impl_replays = ncases
     ctx.evaluations = ncases
     ctx.nontrivial = ncases
